@@ -216,8 +216,9 @@ def verbSnap (fields : List Sexp) : String :=
     | none => "reject"
     | some m =>
       match resolveSnapshot m with
-      | none => "unresolvable"
+      | none => if (field "verdictonly" fields).isSome then "reject" else "unresolvable"
       | some snap =>
+        if (field "verdictonly" fields).isSome then "ok" else
         let re := if Wire.encodePolicies (buildSnapshotMsg snap) == bs then "same" else "differ"
         let pol := snap.policies.map fun p =>
           tagged (match p.kind with | .allow => "allow" | .deny => "deny") (p.queries.map (encRuleW true))
